@@ -1,7 +1,8 @@
 (* C09 — Kernel-matrix caches return the true entries and respect their memory bound.
    Only statements + `exact`; the proofs live in C09Proofs.v, the executable model in C09Model.v. *)
 From Coq Require Import List Arith.
-From SharkV Require Import ListAux C09Model C09Proofs.
+From Coq Require Import ZArith.
+From SharkV Require Import ListAux C09Model C09Proofs C09Derived C09DerivedProofs.
 Import ListNotations.
 
 (* Every state reachable by any finite history of (precondition-respecting) operations from an
@@ -67,3 +68,36 @@ Theorem C09_clear_empties :
   forall ids mx ops, csize (step (run (init ids mx) ops) OClear) = 0.
 Proof. intros. unfold step. simpl. apply clear_empties. apply reachable_inv. Qed.
 Print Assumptions C09_clear_empties.
+
+(* ---- derived matrices: regularised / label-modified / precomputed matrices agree entry-wise with
+   direct kernel evaluation of the ORIGINAL examples now sitting at the two positions, after any
+   history of flips ---- *)
+Theorem C09_regularized_matrix_entries :
+  forall (k0 : nat -> nat -> Z) n d0 l0 fl i j,
+    length d0 = n -> length l0 = n -> valid_flips n fl -> i < n -> j < n ->
+    let s := dflips fl (dinit n d0 l0) in
+    e_reg k0 s i j = (k0 (p s i) (p s j) + (if Nat.eqb i j then nth (p s i) d0 0 else 0))%Z.
+Proof. exact e_reg_spec. Qed.
+Print Assumptions C09_regularized_matrix_entries.
+
+Theorem C09_modified_matrix_entries :
+  forall (k0 : nat -> nat -> Z) n d0 l0 fl eq ne i j,
+    length d0 = n -> length l0 = n -> valid_flips n fl -> i < n -> j < n ->
+    let s := dflips fl (dinit n d0 l0) in
+    e_mod k0 eq ne s i j =
+    ((if Nat.eqb (nth (p s i) l0 0%nat) (nth (p s j) l0 0%nat) then eq else ne) * k0 (p s i) (p s j))%Z.
+Proof. exact e_mod_spec. Qed.
+Print Assumptions C09_modified_matrix_entries.
+
+Theorem C09_flip_orders_are_permutations :
+  forall n d0 l0 fl, length d0 = n -> length l0 = n -> valid_flips n fl ->
+    Permutation.Permutation (pos (dflips fl (dinit n d0 l0))) (seq 0 n).
+Proof. intros. apply (D_perm n d0 l0). apply dflips_inv; auto. Qed.
+Print Assumptions C09_flip_orders_are_permutations.
+
+Theorem C09_precomputed_matrix_flip :
+  forall n (m : mat) i j a b,
+    length m = n -> (forall r, r < n -> length (nth r m []) = n) -> i < n -> j < n -> a < n -> b < n ->
+    m_entry (m_flip i j m) a b = m_entry m (tr i j a) (tr i j b).
+Proof. exact m_flip_spec. Qed.
+Print Assumptions C09_precomputed_matrix_flip.
